@@ -674,8 +674,31 @@ func c19Each(sel *cache.MemcachedJumpHashSelector) string {
 	return strings.Join(o, ",")
 }
 
-func c19PickCase(e *env, r *rng, n int) {
+func c19PickCase(e *env, r *rng, n int, tie bool) {
 	servers, extra := c19ServerFamily(r, n)
+	if tie {
+		// names that are equal in natural order (same text up to leading zeros of a digit run): natsort's
+		// comparison relates them both ways, so "the naturally sorted list" is not unique for such a list
+		d := r.intn(30)
+		z := pick(r, []string{"0", "00"})
+		t1, t2 := fmt.Sprintf("/srv/tie-%d.sock", d), fmt.Sprintf("/srv/tie-%s%d.sock", z, d)
+		if r.chance(1, 2) {
+			t1, t2 = fmt.Sprintf("/pods/mc-%d/s%d.sock", d, d), fmt.Sprintf("/pods/mc-%s%d/s%d.sock", z, d, d)
+		}
+		servers[r.intn(len(servers))] = t1
+		if len(servers) == 1 || r.chance(1, 2) {
+			servers = append(servers, t2)
+		} else {
+			for {
+				j := r.intn(len(servers))
+				if servers[j] != t1 {
+					servers[j] = t2
+					break
+				}
+			}
+		}
+		n = len(servers)
+	}
 	sh1 := append([]string(nil), servers...)
 	sh2 := append([]string(nil), servers...)
 	for i := len(sh1) - 1; i > 0; i-- {
@@ -861,7 +884,7 @@ func runC19(e *env) {
 	// fixed small cases first
 	r0 := newRng(e.seed, 190)
 	for n := 1; n <= 64; n++ {
-		c19PickCase(e, r0, n)
+		c19PickCase(e, r0, n, false)
 	}
 	r1 := newRng(e.seed, 191)
 	for i := 0; i < 1200*(1+e.scale)/2; i++ {
@@ -869,7 +892,11 @@ func runC19(e *env) {
 		if r1.chance(1, 3) {
 			n = 1 + r1.intn(6)
 		}
-		c19PickCase(e, r1, n)
+		c19PickCase(e, r1, n, false)
+	}
+	r5 := newRng(e.seed, 195)
+	for i := 0; i < 60*(1+e.scale)/2; i++ {
+		c19PickCase(e, r5, 1+r5.intn(12), true)
 	}
 	r2 := newRng(e.seed, 192)
 	for i := 0; i < 1500*(1+e.scale)/2; i++ {
